@@ -7,7 +7,7 @@ from typing import Dict, List, Optional, Set, Tuple
 
 from ..cfg import CFG
 from ..model import AnchorError, Program, dotted, kw, last_attr, norm, parent, walk_no_nested
-from ..report import Check
+from ..report import Check, guard
 from .common import calls_in, guards_of, local_assignments, need_locals, returns_of
 
 ORDER_PRESERVING_CALLS = {"enumerate", "zip", "list", "tuple", "iter"}
@@ -180,8 +180,102 @@ def r08_e(prog: Program, chk: Check) -> None:
     chk.ob("R08.e", "signature::Signature.check_call_with_bound_args::both-rebuild-arms", "isinstance(position, int)" in arms and "isinstance(position, str)" in arms, site, "the remaining union members must be written back for positional and for keyword arguments")
 
 
+# ------------------------------------------------------------------- R08.f
+def _overload_chunk(args):
+    part, nparts, max_n = args
+    from ..model import Program as _P
+    from . import overload_model as om
+
+    model = om.OverloadModel(_P())
+    n = 0
+    classes: Dict[str, Dict[str, object]] = {}
+
+    def fmt(ovs):
+        return [("" if b else "(arity mismatch) ") + ("(other parameter rejects) " if f else "") + ("object" if p == om.TOP else "|".join(sorted(p))) + " -> " + r for b, p, r, f in ovs]
+
+    def note(key: str, bad: bool, ovs, a, diag, res, extra=None) -> None:
+        c = classes.setdefault(key, {"n": 0, "bad": 0, "witness": []})
+        c["n"] += 1  # type: ignore[operator]
+        if bad:
+            c["bad"] += 1  # type: ignore[operator]
+            w = c["witness"]
+            w.append({"overloads": fmt(ovs), "argument": "Any" if a == "Any" else " | ".join(sorted(a)), "diagnosed": diag, "result": sorted(res) if isinstance(res, frozenset) else res, **(extra or {})})  # type: ignore[union-attr]
+            w.sort(key=lambda d: (len(d["overloads"]), len(repr(d))))  # type: ignore[union-attr]
+            del w[4:]  # type: ignore[arg-type]
+
+    for idx, ovs in enumerate(om.overload_sets(max_n)):
+        if idx % nparts != part:
+            continue
+        for a in om.arguments():
+            n += 1
+            diag, res = model.run(ovs, a)
+            crashed = isinstance(res, str) and res.startswith("crash")
+            note("no-crash", crashed, ovs, a, diag, res)
+            if crashed:
+                continue
+            is_any = isinstance(res, str) and res.startswith("Any")
+            if a == "Any":
+                cands = []
+                for b, p, r, f in ovs:
+                    if not b or f:
+                        continue
+                    cands.append(r)
+                    if p == om.TOP:
+                        break
+                note("Any argument never selects one overload's type when several overloads match", len(set(cands)) >= 2 and not is_any, ovs, a, diag, res)
+                note("Any argument is diagnosed only when no overload binds", diag != (not cands), ovs, a, diag, res)
+                continue
+            owns = {x: om.own_call(ovs, x) for x in a}
+            if len(a) == 1:
+                (x,) = tuple(a)
+                r = owns[x]
+                note("plain argument: diagnosed iff no overload accepts it", (r is None) != diag, ovs, a, diag, res)
+                if r is not None and not diag:
+                    note("plain argument: typed by the first accepting overload", res != frozenset({r}), ovs, a, diag, res, {"first_accepting_overload_returns": r})
+            else:
+                ok_all = all(v is not None for v in owns.values())
+                note("union argument: accepted iff every member is accepted by some overload", ok_all == diag, ovs, a, diag, res, {"members_own_results": owns})
+                if ok_all and not diag:
+                    note("union argument: the type contains each member's own result", not is_any and not set(owns.values()) <= set(res), ovs, a, diag, res, {"members_own_results": owns})
+    return n, classes
+
+
+def r08_f(prog: Program, chk: Check) -> None:
+    import multiprocessing as mp
+    import os as _os
+
+    max_n = 2 if _os.environ.get("VERIF_SELFTEST") else 4 if chk.tier == "thorough" else 3
+    chk.rule(
+        "R08.f",
+        "overload resolution as a finite model: OverloadedSignature.check_call and _unite_rets are interpreted from their AST; each overload is a model object that binds or not "
+        "and whose single-overload check follows the documented contract (clean match / match through Any / partial match of a union with the remainder handed on / error) for one "
+        f"argument over three atoms; for every set of 2-{max_n} overloads (parameter = one or two atoms or `object`, arity binding or not, distinct or repeated return types) and every "
+        "argument (atom, union, Any) the verdict and type satisfy the property: first accepting overload for plain arguments; unions accepted iff every member is, with each member's "
+        "own result in the type; Any never selects one overload's type when several match",
+        floor=6,
+    )
+    procs = 2 if _os.environ.get("VERIF_SELFTEST") else min(16, _os.cpu_count() or 1)
+    with mp.get_context("fork").Pool(procs) as pl:
+        results = pl.map(_overload_chunk, [(i, procs * 3, max_n) for i in range(procs * 3)])
+    total = 0
+    merged: Dict[str, Dict[str, object]] = {}
+    for n, classes in results:
+        total += n
+        for k, c in classes.items():
+            m = merged.setdefault(k, {"n": 0, "bad": 0, "witness": []})
+            m["n"] += c["n"]  # type: ignore[operator]
+            m["bad"] += c["bad"]  # type: ignore[operator]
+            m["witness"] = sorted(list(m["witness"]) + list(c["witness"]), key=lambda d: (len(d["overloads"]), len(repr(d))))[:4]  # type: ignore[arg-type]
+    chk.model_evaluations += total
+    chk.analysed["overload_model"] = {"calls": total, "max_overloads": max_n}
+    site = prog.site("signature", prog.func("signature", "OverloadedSignature.check_call"))
+    for k, c in sorted(merged.items()):
+        wit = c["witness"]
+        chk.ob("R08.f", f"signature::overload-model::{k}", int(c["bad"]) == 0, site,  # type: ignore[arg-type]
+               f"{c['n']} calls, {c['bad']} failing" + (f"; smallest: {wit[0]}" if wit else ""), witness=wit)  # type: ignore[index]
+
+
 def run(prog: Program, chk: Check) -> None:
-    r08_e(prog, chk)
-    r08_a(prog, chk)
-    r08_bc(prog, chk)
-    r08_d(prog, chk)
+    guard(chk, r08_e, prog, chk)
+    guard(chk, r08_d, prog, chk)
+    guard(chk, r08_f, prog, chk)
